@@ -83,4 +83,17 @@ def api (line : String) : String :=
     | none => "bad-chart"
   | _ => "bad-op"
 
-end Driver
+/-- request `<anything>\t<chart>`: the names the trace alphabet uses for the numbered states and
+transitions of the flat chart: `S<k>=<id>` in document order, `T<k>=<name>` in post-fix order -/
+def names (line : String) : String :=
+  match line.splitOn "\t" with
+  | _ :: sx :: _ =>
+    match parseSExp sx >>= parseDocNamed with
+    | some (d, late) =>
+      let c := flatten d late
+      let ss := (List.range c.states.size).map (fun i => s!"S{i}={(Large.st c i).id}")
+      let ts := (List.range c.trans.size).map (fun i => s!"T{i}={Large.tname c i}")
+      " ".intercalate (ss ++ ts)
+    | none => "bad-chart"
+  | _ => "bad-op"
+
